@@ -243,6 +243,7 @@ def run(ctx, rep):
     pool_order_rule(P, rep, 'R-C20-5o')
     unsynced_count_rule(P, rep, 'R-C20-4n')
     unsynced_reported_rule(P, rep, 'R-C20-4e')
+    stripe_unsynced_predicate_rule(P, rep, 'R-C20-4v')
     from .C11 import invalid_walk_rule, hash_provenance_share
     invalid_walk_rule(P, rep, 'R-C20-4w', 'state_status', 'status reports the array as fully synced (no unsynced / unscrubbed stripe behind the used size is counted)')
     from .carried import carried_flags_rule
@@ -332,6 +333,191 @@ def unsynced_count_rule(P, rep, rid):
                   function='state_status', construct='unsynced count under info test')
 
 
+def stripe_unsynced_predicate_rule(P, rep, rid):
+    """status (and parity_is_invalid, the same predicate asked by scan) call a stripe unsynced when one of its blocks has a file and
+    one -- the same or ANOTHER, possibly a block without file: a deleted one -- has invalid parity.  The per-stripe part of the
+    two loops is interpreted over every combination of block states of two disks; the counter / the verdict must follow
+    exists(has file) and exists(invalid parity), the two quantifiers being independent."""
+    from .. import region as RG
+    import itertools
+    from .C06 import blk_value
+    rep.rule(rid, 'state_status / parity_is_invalid: a stripe is unsynced iff some block has a file and some block (maybe another one, maybe a deleted one) has invalid parity -- all 25 state pairs of two disks', 50)
+    st = blk_value(P)
+    states = {'EMPTY': None, 'BLK': st['BLK'], 'CHG': st['CHG'], 'REP': st['REP']}
+    rd = P.fn('state_read_content')
+    dele = [rd.const_of(c.ops[1]) for c in rd.calls('block_state_set') if rd.const_of(c.ops[1]) not in st.values()]
+    if len(set(dele)) != 1:
+        raise AnalysisBroken('DELETED state constant not recovered')
+    states['DELETED'] = dele[0]
+    has_file = {'BLK', 'CHG', 'REP'}; invalid = {'CHG', 'REP', 'DELETED'}
+    nl = P.distructs.get('tommy_node_struct'); bl = P.distructs.get('snapraid_block')
+    if not nl or not bl:
+        raise AnalysisBroken('layouts of tommy_node_struct / snapraid_block not found')
+    no = {m['name']: m['off'] for m in nl['members']}; bo = {m['name']: m['off'] for m in bl['members']}
+    stl = P.distructs.get('snapraid_state')
+    so = {m['name']: m['off'] for m in stl['members']} if stl else {}
+    if 'disklist' not in so:
+        raise AnalysisBroken('snapraid_state.disklist not found')
+
+    class _Stop(Exception):
+        pass
+
+    for fname in ('state_status', 'parity_is_invalid'):
+        f = P.fn(fname)
+        rep.analysed(f)
+        finds = [c for c in f.calls() if c.callee in ('fs_par2block_find', 'fs_par2block_get')]
+        if len(finds) != 1:
+            raise AnalysisBroken('%s: the block lookup of the stripe loop was not found' % fname)
+        inner = f.loop_of(finds[0].block)
+        outer = [h for h, body in f.loops.items() if inner in body and h != inner] if inner is not None else []
+        if inner is None or len(outer) != 1:
+            raise AnalysisBroken('%s: the loop over the disks inside the loop over the positions was not found' % fname)
+        oh = outer[0]
+        bad = None
+        n = 0
+        for pair in itertools.product(sorted(states), repeat=2):
+            blocks = []
+            def ext(ins, args):
+                cal = ins.callee
+                if cal in ('fs_par2block_find', 'fs_par2block_get'):
+                    d = args[0]
+                    k = d.reg[1] if isinstance(d, RG.P_) else 0
+                    return (blocks[k],)
+                if cal in ('log_tag', 'msg_progress', 'log_flush', 'msg_status', 'log_fatal'):
+                    return (0,)
+                if cal == 'parity_allocated_size':
+                    return (1,)
+                if cal == 'info_get':
+                    return (0,)
+                if cal == 'time':
+                    return (1000,)
+                return None
+            R = RG.Region(P, extern=ext)
+            R.discover = []
+            for k, nm in enumerate(pair):
+                if states[nm] is None:
+                    blocks.append(0)
+                else:
+                    bp = RG.P_(('obj', 'block%d' % k), 0)
+                    R.mem[(bp.reg, bo['state'])] = states[nm]
+                    blocks.append(bp)
+            sp = RG.P_(('obj', 'state'), 0)
+            n0 = RG.P_(('node', 0), 0); n1 = RG.P_(('node', 1), 0)
+            R.mem[(n0.reg, no['data'])] = RG.P_(('disk', 0), 0); R.mem[(n0.reg, no['next'])] = n1
+            R.mem[(n1.reg, no['data'])] = RG.P_(('disk', 1), 0); R.mem[(n1.reg, no['next'])] = 0
+            R.mem[(sp.reg, so['disklist'])] = n0
+            R.zero_regions.add(sp.reg)
+            want = int(any(x in has_file for x in pair) and any(x in invalid for x in pair))
+            if fname == 'parity_is_invalid':
+                try:
+                    got = R.run(f, 0, [sp])
+                except RG.Unsupported as e:
+                    raise AnalysisBroken('cannot interpret parity_is_invalid: %s' % e)
+                got = int(bool(got))
+            else:
+                # one position of the counting loop: from the loop header until the position loop is entered again
+                cnt = [i for i in f.all_insts() if i.op == 'alloca' and (i.var or '') == 'unsynced_blocks']
+                if len(cnt) != 1:
+                    raise AnalysisBroken('state_status: the unsynced counter was not found')
+                for a_ in f.arg_allocas():
+                    pass
+                seen = [0]
+                def stop(ins):
+                    return False
+                R.set_local(f, 'state', sp)
+                pl = R.local_by_id(f, cnt[0].id); R.mem[(pl.reg, 0)] = 0
+                bm = [i for i in f.all_insts() if i.op == 'alloca' and (i.var or '') == 'blockmax']
+                ii = [i for i in f.all_insts() if i.op == 'alloca' and (i.var or '') == 'i']
+                if len(bm) != 1 or len(ii) != 1:
+                    raise AnalysisBroken('state_status: loop variables not found')
+                R.mem[(R.local_by_id(f, bm[0].id).reg, 0)] = 1
+                R.mem[(R.local_by_id(f, ii[0].id).reg, 0)] = 0
+                # run from the header of the position loop; the loop ends after one position (blockmax = 1): stop at the first call after it
+                body = f.loops[oh]
+                try:
+                    R.run(f, oh, stop=lambda ins: f.insts.get(ins.id) is ins and ins.block not in body and ins.block != oh)
+                    raise AnalysisBroken('state_status: the counting loop returned')
+                except RG.Stop:
+                    pass
+                except RG.Unsupported as e:
+                    raise AnalysisBroken('cannot interpret the counting loop of state_status: %s' % e)
+                got = R.mem[(pl.reg, 0)]
+            n += 1
+            if got != want and bad is None:
+                bad = 'blocks of the stripe %s: %s, but %s' % (list(pair), 'counted unsynced' if got else 'NOT unsynced', 'no block has both' if not want else 'one block has a file and one has invalid parity (a deleted block keeps the parity of the stripe invalid although it has no file): the stripe is waiting for a sync and is not reported')
+        if bad:
+            rep.fail(rid, '%s: stripe unsynced predicate' % fname, f.file, bad, function=fname, construct='unsynced predicate')
+        else:
+            for _ in range(n):
+                rep.ok(rid, '%s state pair' % fname)
+
+
+def _feasible_avoiding(f, target, avoid_blocks, limit=300000):
+    """is `target` reachable from the entry without leaving any block of `avoid_blocks` through its terminator, on a path that never
+    takes both outcomes of one comparison `local <pred> constant` (the local not being assigned in between)?  Conservative: when the
+    search is cut off the answer is True."""
+    def key_of(t):
+        ci = f.inst_of(t.ops[0])
+        if ci is None or ci.op != 'icmp' or f.const_of(ci.ops[1]) is None:
+            return None
+        li = f.inst_of(ci.ops[0])
+        if li is None or li.op != 'load':
+            return None
+        a = f.strip(li.ops[0])
+        if a[0] != 'i' or f.insts[a[1]].op != 'alloca':
+            return None
+        return (a[1], ci.pred, f.const_of(ci.ops[1]))
+    from .C17 import _icmp
+    stores = {}
+    for i in f.all_insts():
+        if i.op == 'store':
+            a = f.strip(i.ops[1])
+            if a[0] == 'i':
+                stores.setdefault(i.block, set()).add(a[1])
+    seen = set()
+    stack = [(0, frozenset())]
+    n = 0
+    while stack:
+        b, dec = stack.pop()
+        if (b, dec) in seen:
+            continue
+        seen.add((b, dec))
+        n += 1
+        if n > limit:
+            return True
+        if b == target.block:
+            return True
+        if b in avoid_blocks:
+            continue
+        if b in stores:
+            dec = frozenset(d for d in dec if d[0] not in stores[b])
+        t = f.term(b)
+        if t.op == 'br' and len(t.ops) == 3:
+            k = key_of(t)
+            if k is None:
+                stack.append((t.ops[1][1], dec)); stack.append((t.ops[2][1], dec))
+                continue
+            # known facts about this local: (alloca, 'val-class') decisions are kept as (alloca, pred, const, outcome)
+            outs = []
+            for outcome in (False, True):
+                ok = True
+                for (a_, p_, c_, o_) in dec:
+                    if a_ != k[0]:
+                        continue
+                    # is there a value satisfying both (p_ c_ == o_) and (k.pred k.const == outcome)?  try a few witnesses
+                    wit = {c_ - 1, c_, c_ + 1, k[2] - 1, k[2], k[2] + 1}
+                    if not any(_icmp(p_, v, c_) == o_ and _icmp(k[1], v, k[2]) == outcome for v in wit):
+                        ok = False
+                if ok:
+                    outs.append(outcome)
+            for outcome in outs:
+                stack.append((t.ops[2][1] if outcome else t.ops[1][1], dec | {(k[0], k[1], k[2], outcome)}))
+        else:
+            for s_ in f.succ[b]:
+                stack.append((s_, dec))
+    return False
+
+
 def unsynced_reported_rule(P, rep, rid):
     """whatever else status prints, it says whether unsynced stripes are recorded: every path from the end of the counting loop to a
     return passes a test of the unsynced counter (the report of "NOT fully synced" hangs on it).  An early return for an array
@@ -347,6 +533,10 @@ def unsynced_reported_rule(P, rep, rid):
     if not tests:
         raise AnalysisBroken('state_status: no test of the unsynced counter outside the loops')
     bad = [r for r in f.returns() if not f.must_pass(r, tests)]
+    if bad:
+        # a path found by plain reachability may be infeasible when the same condition is tested twice (`if (!count) ...; if (!count)
+        # return`): search again remembering the outcome of every comparison of a local with a constant
+        bad = [r for r in bad if _feasible_avoiding(f, r, {t.block for t in tests})]
     path = f.find_path(f.entry(), bad[0], stop={t.id for t in tests}) if bad else None
     rep.check(not bad, rid, 'state_status always reports on unsynced stripes', tests[0].loc(),
               '%d test(s); every return passes one' % len(tests) if not bad else 'a return is reachable without any test of the unsynced counter (lines %s): with recorded but never synced files status stops at "The array is empty." although summary:has_unsynced is not zero' % [p_.line for p_ in (path or [])][-5:],
